@@ -13,7 +13,7 @@ for log in logs:
             rs[:] = [r for r in rs if r["check"] != d["check"]] + [d]   # a later log line for the same (change, check) replaces the earlier one
 out = ["# Seeded changes and the checks that catch them", "",
        "Each directory holds `patch.diff` (applies to /repo HEAD with `git -C /repo apply`), `demo.py` (exit 1 with the change, 0 without) and `meta.json`.",
-       "The changes `C??_m1` .. `C??_m12` were written in eight rounds (two per property and round; gaps are changes that were not kept) by independent sub-agents that saw only the property text and, from round 2 on, the list of earlier changes to avoid; `R_<commit>` are the reverted `fix:` commits (the original defects). The table is assembled from the matrix runs named in DESIGN.md S.7: every (change, check) pair shows its latest run; the own-property column of all 235 changes was re-run last (run #10, /repo HEAD bd42946).",
+       "The changes `C??_m1` .. `C??_m12` were written in eight rounds (two per property and round; gaps are changes that were not kept) by independent sub-agents that saw only the property text and, from round 2 on, the list of earlier changes to avoid; `R_<commit>` are the reverted `fix:` commits (the original defects). The table is assembled from the matrix runs named in DESIGN.md S.7: every (change, check) pair shows its latest run; the own-property column of all 235 changes was re-run last (run #12, /repo HEAD bd42946).",
        "Every change was verified in a scratch worktree: patch applies, the 120 existing tests pass, the demo fails with it and passes without it.", "",
        "Columns: *how* = `native` (the bounded battery replayed a failing input on the real code), `refuted` (an obligation got a counter-model), `undecided-proof` (the proof side ended UNDECIDED - spec drift or unsupported construct - and the battery decided).", "",
        "| change | property | what it changes | caught by (exit 1) | how |", "|---|---|---|---|---|"]
